@@ -136,13 +136,13 @@ fn c17_timer_arming() {
     let d2 = Duration::from_secs(kani::any::<u16>() as u64);
     on_command::<TA17, ()>(addr, Command::SetTimer(other, d0..d0), ser, &sock, &mut m);
     let other_deadline = deadline(&m, other).expect("C17 a set timer is pending");
-    let before1 = symbolic_now();
+    let before1 = Instant::now(); // stubbed by the symbolic clock under Kani, the real clock in native replay
     on_command::<TA17, ()>(addr, Command::SetTimer(t, d1..d1), ser, &sock, &mut m);
     let dl1 = deadline(&m, t).expect("C17 a set timer is pending");
     assert!(dl1 >= before1 + d1, "C17 a timer fires no earlier than the lower bound of its range after arming");
     let rearm: bool = kani::any();
     if rearm {
-        let before2 = symbolic_now();
+        let before2 = Instant::now();
         on_command::<TA17, ()>(addr, Command::SetTimer(t, d2..d2), ser, &sock, &mut m);
         let dl2 = deadline(&m, t).expect("C17 a re-armed timer is pending");
         assert!(dl2 >= before2 + d2, "C17 a re-armed timer fires no earlier than the lower bound given at its LATEST arming");
@@ -151,7 +151,7 @@ fn c17_timer_arming() {
     assert!(deadline(&m, other) == Some(other_deadline), "C17 arming one timer leaves the others untouched");
     let cancel: bool = kani::any();
     if cancel {
-        let now = symbolic_now();
+        let now = Instant::now();
         on_command::<TA17, ()>(addr, Command::CancelTimer(t), ser, &sock, &mut m);
         let due_soon = match deadline(&m, t) {
             None => false,
